@@ -201,7 +201,14 @@ func c19(p *an.Prog, r *an.R, tier string) {
 				continue
 			}
 			derived++
+			refs := append([]ssa.Instruction(nil), *v.Referrers()...)
 			for _, ref := range *v.Referrers() {
+				// sort.Slice(x any, ...) takes the slice boxed in an interface
+				if mi, ok := ref.(*ssa.MakeInterface); ok {
+					refs = append(refs, *mi.Referrers()...)
+				}
+			}
+			for _, ref := range refs {
 				what := ""
 				switch x := ref.(type) {
 				case *ssa.IndexAddr:
